@@ -320,7 +320,8 @@ string JSON::serialize(uint32_t options, size_t indent_level) const {
     case 2: { // int64_t
       int64_t v = this->as_int();
       if (options & SerializeOption::HEX_INTEGERS) {
-        return v < 0 ? string_printf("-0x%" PRIX64, -v) : string_printf("0x%" PRIX64, v);
+        // Negate as unsigned: -v overflows (undefined behavior) for INT64_MIN
+        return v < 0 ? string_printf("-0x%" PRIX64, -static_cast<uint64_t>(v)) : string_printf("0x%" PRIX64, v);
       } else {
         return to_string(this->as_int());
       }
